@@ -36,8 +36,10 @@ def last_json(out):
     return {}
 
 
-def trace_values(trace):
+def trace_values(trace, failure=None):
     """last assignment per plain identifier in a CBMC trace: name -> text value"""
+    if failure is not None and failure.get('trace_last'):
+        return failure['trace_last'], failure.get('trace_first', {})
     vals = {}
     first = {}
     for m in re.finditer(r'^\s+([A-Za-z_][\w.$!@\[\]]*)=([^ \n]+)', trace, re.M):
